@@ -102,22 +102,21 @@ Fixpoint find (needle hay : str) : option nat :=
   end.
 
 (* Python's s.replace(old, new) for non-empty old: left to right, non-overlapping.
-   Fuel = length of s suffices. *)
-Fixpoint replace_fuel (fuel : nat) (old new s : str) : str :=
-  match fuel with
-  | O => s
-  | S f =>
-    match s with
-    | [] => []
-    | x :: s' =>
-      if startswith old s then new ++ replace_fuel f old new (skipn (length old) s)
-      else x :: replace_fuel f old new s'
+   skip = number of characters of the current occurrence still to be dropped. *)
+Fixpoint replace_aux (old new : str) (skip : nat) (s : str) : str :=
+  match s with
+  | [] => []
+  | x :: s' =>
+    match skip with
+    | S k => replace_aux old new k s'
+    | O => if startswith old s then new ++ replace_aux old new (length old - 1) s'
+           else x :: replace_aux old new O s'
     end
   end.
 Definition replace (old new s : str) : str :=
   match old with
   | [] => s   (* callers never pass an empty pattern; Python would interleave *)
-  | _ => replace_fuel (S (length s)) old new s
+  | _ => replace_aux old new O s
   end.
 
 Lemma startswith_app p s : startswith p (p ++ s) = true.
@@ -131,4 +130,51 @@ Proof.
     rewrite andb_true_iff, Z.eqb_eq, IH. split.
     + intros [-> [t ->]]. exists t. reflexivity.
     + intros [t Ht]. inversion Ht; subst. split; [reflexivity|]. exists t; reflexivity.
+Qed.
+
+Lemma startswith_length p s : startswith p s = true -> (length p <= length s)%nat.
+Proof.
+  revert s; induction p as [|x p IH]; intros [|y s]; simpl; intro H; try lia; try discriminate.
+  apply andb_true_iff in H as [_ H]. apply IH in H. lia.
+Qed.
+
+(* a character that does not occur in the pattern blocks every match across it *)
+Lemma startswith_blocked old a c b :
+  existsb (Z.eqb c) old = false -> old <> [] ->
+  startswith old (a ++ c :: b) = startswith old a.
+Proof.
+  revert a; induction old as [|o old IH]; intros a Hc Hne; [congruence|].
+  simpl in Hc. apply orb_false_iff in Hc as [Hco Hc].
+  destruct a as [|x a]; simpl.
+  - rewrite Z.eqb_sym, Hco. reflexivity.
+  - destruct old as [|o' old'].
+    + simpl. reflexivity.
+    + rewrite IH; [reflexivity|exact Hc|discriminate].
+Qed.
+
+Lemma replace_aux_blocked old new c b : existsb (Z.eqb c) old = false -> old <> [] ->
+  forall a k, (k <= length a)%nat ->
+  replace_aux old new k (a ++ c :: b) = replace_aux old new k a ++ c :: replace_aux old new O b.
+Proof.
+  intros Hc Hne. induction a as [|x a IH]; intros k Hk.
+  - assert (k = O) by (simpl in Hk; lia). subst k. cbn [app replace_aux].
+    replace (startswith old (c :: b)) with (startswith old ([] ++ c :: b)) by reflexivity.
+    rewrite startswith_blocked by assumption.
+    destruct old as [|o old]; [congruence|]. reflexivity.
+  - destruct k as [|k].
+    + cbn [app replace_aux].
+      replace (x :: a ++ c :: b) with ((x :: a) ++ c :: b) by reflexivity.
+      rewrite startswith_blocked by assumption.
+      destruct (startswith old (x :: a)) eqn:E.
+      * apply startswith_length in E. simpl in E.
+        rewrite IH by lia. rewrite app_assoc. reflexivity.
+      * rewrite IH by lia. reflexivity.
+    + cbn [app replace_aux]. apply IH. simpl in Hk. lia.
+Qed.
+
+Lemma replace_blocked old new c a b : existsb (Z.eqb c) old = false ->
+  replace old new (a ++ c :: b) = replace old new a ++ c :: replace old new b.
+Proof.
+  intro Hc. destruct old as [|o old]; [reflexivity|].
+  unfold replace. apply replace_aux_blocked; [exact Hc|discriminate|lia].
 Qed.
